@@ -15,6 +15,7 @@ import (
 	"sync"
 
 	"github.com/google/pprof/profile"
+	"github.com/google/pprof/verif/internal/drv"
 	"github.com/google/pprof/verif/internal/harness"
 	"github.com/google/pprof/verif/internal/mon"
 	"github.com/google/pprof/verif/internal/wire"
@@ -307,19 +308,73 @@ func runCorpus(c *harness.Ctx) harness.Result {
 	return res
 }
 
+// pprof -proto output re-read by pprof -raw / -traces equals the direct rendering
+func runDriver(c *harness.Ctx) harness.Result {
+	r := c.Rng
+	var p *profile.Profile
+	for {
+		p = GenCodec(r)
+		if len(p.SampleType) > 0 && len(p.Sample) > 0 && p.DropFrames == "" && p.KeepFrames == "" {
+			break
+		}
+		p.DropFrames, p.KeepFrames = "", ""
+		if len(p.SampleType) > 0 && len(p.Sample) > 0 {
+			break
+		}
+	}
+	// sample type names must be selectable and units printable
+	for i, st := range p.SampleType {
+		st.Type, st.Unit = fmt.Sprintf("t%d", i), "count"
+	}
+	p.DefaultSampleType = ""
+	res := harness.Result{NonTrivial: true, Sig: fmt.Sprintf("drv st%d s%d l%d %d", len(p.SampleType), len(p.Sample), len(p.Location), c.Index), Sample: "pprof -raw p  versus  pprof -raw (pprof -proto p)"}
+	render := func(src *profile.Profile, format string) (string, string) {
+		out, ui, rr := drv.Report(map[string]*profile.Profile{"p": src}, []string{"p"}, map[string]bool{format: true, "addresses": true}, nil, nil, nil, nil)
+		if rr.Panic != "" {
+			return "", "panic: " + rr.Panic
+		}
+		if rr.Err != nil {
+			return "", fmt.Sprintf("error: %v %v", rr.Err, ui.Errs)
+		}
+		return out, ""
+	}
+	saved, e := render(p, "proto")
+	if e != "" {
+		c.Stat("driver.errors", 1)
+		return res // reported as an error: not a codec matter (C09)
+	}
+	q, err := profile.ParseData([]byte(saved))
+	if err != nil {
+		res.Verdict, res.Detail = harness.Violated, fmt.Sprintf("pprof -proto output cannot be parsed back: %v", err)
+		return res
+	}
+	c.Stat("driver.reopened", 1)
+	for _, f := range []string{"raw", "traces"} {
+		a, e1 := render(p, f)
+		b, e2 := render(q, f)
+		if e1 != e2 || a != b {
+			res.Verdict = harness.Violated
+			res.Detail = fmt.Sprintf("pprof -%s of the profile and of its -proto copy differ (%q / %q)\n--- direct\n%s\n--- via -proto\n%s", f, e1, e2, harness.Trunc(a, 1500), harness.Trunc(b, 1500))
+			return res
+		}
+	}
+	return res
+}
+
 func init() {
 	loadCorpus()
 	nc := len(corpus)
 	harness.Register(&harness.Check{
 		ID:    "C01",
 		Level: "exploration",
-		Rule: "part gen: codec-class generator (sparse/huge/boundary ids, 0..4 sample types, 0..4 elements in every repeated field, extreme int64, empty/NUL/non-UTF8/long strings, partial units); part corpus: every repository testdata file that ParseData accepts (protobuf and legacy). " +
+		Rule: "part gen: codec-class generator (sparse/huge/boundary ids, 0..4 sample types, 0..4 elements in every repeated field, extreme int64, empty/NUL/non-UTF8/long strings, partial units); part corpus: every repository testdata file that ParseData accepts (protobuf and legacy). part driver: codec-class profiles saved by the real driver with -proto and rendered with -raw and -traces, compared with the direct rendering. " +
 			"oracle per profile: independent wire decoder view == normalised in-memory view; ParseUncompressed/Parse/ParseData of the written bytes == original; gunzip(Write)==WriteUncompressed; byte fixpoint from the first re-serialisation; Copy equal, pointer-disjoint, mutation-isolated; inputs unmodified. " +
 			"non-trivial = has at least one sample, location or function; distinct = distinct table-size signature (or file)",
 		Assumptions: []string{"normalisation N: labels with empty string value, and numeric value 0 without unit, are unrepresentable in proto3 and dropped", "NumUnit is absent or as long as NumLabel (documented contract)"},
 		Parts: []harness.Part{
 			{Name: "gen", Quick: 20000, Thor: 600000, Run: runGen},
 			{Name: "corpus", Quick: nc, Thor: nc, Run: runCorpus},
+			{Name: "driver", Quick: 1500, Thor: 60000, Run: runDriver},
 		},
 		MinNonTrivial: func(string) int { return 300 },
 		Finish: func(tier string, st map[string]int64) string {
